@@ -15,6 +15,9 @@ ASSUMPTIONS = ["sequential use of progress.Stats for the aggregation theorems (m
 
 def corpus():
     return [
+        "progress.seq s0,s0,f0,f0,f0,S1000,T",      # C08k: failures that took 0 ns are failures
+        "progress.seq s5,f0,S1,f0,f0,S1,s7,T",
+        "progress.seq f0,T",
         "progress.seq s5,s7,f3,S1000,f9,d,T",
         "progress.seq s100,S1,S1,s200,S1,T",          # quiet period must not wipe the lifetime minimum
         "progress.seq f70,S1,S1,f300,T",
